@@ -113,6 +113,30 @@ var scenarios = [][]string{
 		"c adv 1",
 		"c q wire u2 f t -",
 	},
+	{ // RFC 8198 synthesis: a later admission replaces the zone's SOA entry with a shorter-lived one
+		"c new 0 f",
+		"c prec 1 s300/300,g300/300/4000000,p300,g300/300/4000000 -",
+		"c q msg p1 f t -",
+		"c adv 50",
+		"c prec 2 s30/30,g30/30/4000000,p300,g300/300/4000000 -",
+		"c adv 10",
+		"c q msg p1 f t -",
+		"c q wire p1 f f -",
+		"c q dwire p2 f t -",
+		"c q msg n0 f t n0=cp1:p600:-:-:-",
+		"c q wire n0 f t -",
+		"c adv 19",
+		"c q msg p1 f t -",
+		"c adv 1",
+		"c q wire p1 f t -",
+		"c q msg n0 f t -",
+		"c prec 3 s300/300,g300/300/4000000,p300,g300/300/4000000 4",
+		"c adv 3",
+		"c q msg p1 f t -",
+		"c q msg p3 f t -",
+		"c adv 1",
+		"c q msg p3 f t -",
+	},
 	{ // a late refresh never overwrites newer state
 		"c new 0 f",
 		"c q msg n0 f t n0=p:p10:-:-:-",
@@ -317,6 +341,7 @@ type genHist struct {
 	captured map[string]bool
 	tgtOf    map[string]string
 	cuts     []int
+	proofs   []int
 }
 
 // pickD: an RRSIG window.  Outside aligned cases a signature must not be the
@@ -482,12 +507,18 @@ func (g *genHist) genSpec(name string, kind byte, tgt int, ecs bool) string {
 	k := string(kind)
 	if kind == 'c' {
 		k = fmt.Sprintf("c%d", tgt)
+		if tgt >= 100 {
+			k = fmt.Sprintf("cp%d", tgt-100)
+		}
 	}
 	return fmt.Sprintf("%s=%s:%s:%s:%s:%s", name, k, joinOrDash(ans), joinOrDash(ns), lease, sc)
 }
 
 func (g *genHist) pickKind(idx int) (byte, int) {
 	r := g.r
+	if len(g.proofs) > 0 && r.Chance(1, 6) {
+		return 'c', 100 + vlib.Pick(r, g.proofs) // alias onto an owner of the proof zone
+	}
 	if idx < nNames-1 && r.Chance(3, 10) {
 		return 'c', idx + 1 + r.Intn(nNames-1-idx)
 	}
@@ -557,6 +588,27 @@ func genHistCase(r *vlib.R, emit func(string)) int {
 			count += 2
 		}
 	}
+	if r.Chance(1, 5) {
+		// the proof zone: owner A admitted, later owner B (which replaces the
+		// zone's SOA entry), then A is synthesised again
+		a := 1 + r.Intn(3)
+		b := 1 + (a+r.Intn(2))%3
+		emit(g.genProof(a))
+		g.proofs = append(g.proofs, a)
+		emit(fmt.Sprintf("c q %s p%d f %s -", g.route(), a, vlib.B(r.Chance(2, 3))))
+		emit(fmt.Sprintf("c adv %d", g.pickAdvance()))
+		emit(g.genProof(b))
+		g.proofs = append(g.proofs, b)
+		count += 4
+		for k := 0; k < 3; k++ {
+			if hist != nil && hist.taint {
+				return count
+			}
+			emit(fmt.Sprintf("c q %s p%d f %s -", g.route(), vlib.Pick(r, []int{a, a, b}), vlib.B(r.Chance(2, 3))))
+			emit(fmt.Sprintf("c adv %d", g.pickAdvance()))
+			count += 2
+		}
+	}
 	jcap := 40
 	if g.aligned {
 		jcap = 13
@@ -576,7 +628,7 @@ func genHistCase(r *vlib.R, emit func(string)) int {
 			g.tgtOf[name] = ""
 			// script the rest of the alias chain too (sometimes), so that a
 			// chase resolves targets that are not cached
-			for kind == 'c' && r.Chance(1, 2) {
+			for kind == 'c' && tgt < 100 && r.Chance(1, 2) {
 				tn := fmt.Sprintf("n%d", tgt)
 				g.tgtOf[name] = tn
 				name = tn
@@ -596,6 +648,10 @@ func genHistCase(r *vlib.R, emit func(string)) int {
 			name := g.anyAdmitted()
 			if r.Chance(1, 8) {
 				name = fmt.Sprintf("n%d", r.Intn(nNames))
+			}
+			if len(g.proofs) > 0 && r.Chance(1, 5) {
+				emit(fmt.Sprintf("c q %s p%d %s %s -", g.route(), vlib.Pick(r, g.proofs), vlib.B(r.Chance(1, 8)), vlib.B(r.Chance(2, 3))))
+				continue
 			}
 			up := "-"
 			if r.Chance(1, 10) {
@@ -626,6 +682,17 @@ func genHistCase(r *vlib.R, emit func(string)) int {
 				emit("c cap " + name)
 				g.captured[name] = true
 			}
+		case k >= 96:
+			px := 1 + r.Intn(3)
+			switch {
+			case len(g.proofs) > 0 && r.Chance(1, 2):
+				emit(fmt.Sprintf("c q %s p%d %s %s -", g.route(), vlib.Pick(r, g.proofs), vlib.B(r.Chance(1, 8)), vlib.B(r.Chance(2, 3))))
+			default:
+				emit(g.genProof(px))
+				g.proofs = append(g.proofs, px)
+				emit(fmt.Sprintf("c q %s p%d f %s -", g.route(), vlib.Pick(r, g.proofs), vlib.B(r.Chance(2, 3))))
+				count++
+			}
 		default:
 			kx := 1 + r.Intn(3)
 			if len(g.cuts) > 0 && r.Chance(1, 2) {
@@ -639,6 +706,75 @@ func genHistCase(r *vlib.R, emit func(string)) int {
 		}
 	}
 	return count
+}
+
+// genProof: an RFC 8198 NODATA proof for owner k of the proof zone.  The SOA
+// RRset and the NSEC RRset get their own lifetimes: later admissions for other
+// owners replace the zone's SOA entry, often with a shorter-lived one.
+func (g *genHist) genProof(k int) string {
+	r := g.r
+	long := vlib.Pick(r, []int64{60, 120, 300, 3600, 10000})
+	short := vlib.Pick(r, []int64{1, 2, 3, 5, 6, 10, 30, 60})
+	pick := func(base int64) int64 {
+		if r.Chance(1, 5) {
+			return vlib.Pick(r, []int64{1, 2, 5, 6, 30, 300, 100000})
+		}
+		return base
+	}
+	soaBase, nsecBase := long, long
+	switch r.Intn(4) {
+	case 0:
+		soaBase = short
+	case 1:
+		nsecBase = short
+	}
+	soaT, soaM, g1T, g1O := pick(soaBase), pick(soaBase), pick(soaBase), pick(soaBase)
+	nsecT, g2T, g2O := pick(nsecBase), pick(nsecBase), pick(nsecBase)
+	lease := "-"
+	minSOA := min64(min64(soaT, soaM), min64(g1T, g1O))
+	minAll := min64(minSOA, min64(nsecT, min64(g2T, g2O)))
+	minSOA, minAll = min64(minSOA, histExpire), min64(minAll, histExpire)
+	if r.Chance(1, 4) {
+		l := vlib.Pick(r, []int64{0, 1, 2, 3, 4, 6, 20, 60, 9000})
+		lease = fmt.Sprint(l)
+		minSOA, minAll = min64(minSOA, l), min64(minAll, l)
+		g.note(l)
+	}
+	d := func(minOther int64) int64 {
+		if g.aligned {
+			switch r.Intn(4) {
+			case 0:
+				return vlib.Pick(r, []int64{-5, 0, 1, 2})
+			case 1:
+				return minOther + int64(r.Intn(2))
+			case 2:
+				if minOther > 1 {
+					return 1 + int64(r.Intn(int(min64(minOther, 50))))
+				}
+				return 1
+			default:
+				return 4000000
+			}
+		}
+		switch r.Intn(6) {
+		case 0:
+			return vlib.Pick(r, []int64{-5, 0})
+		case 1:
+			return max64(minOther, 0) + 1
+		default:
+			return vlib.Pick(r, []int64{4000000, 2000000000})
+		}
+	}
+	// outside aligned cases a signature may not be the limiting component of
+	// either piece: beyond the SOA piece's other components is beyond the proof piece's too
+	d1, d2 := d(minSOA), d(max64(minSOA, minAll))
+	if !g.aligned && d2 > 0 && d2 <= minSOA {
+		d2 = minSOA + 1
+	}
+	for _, x := range []int64{soaT, soaM, g1T, g1O, nsecT, g2T, g2O, d1, d2} {
+		g.note(x)
+	}
+	return fmt.Sprintf("c prec %d %s,%s,%s,%s %s", k, item('s', soaT, soaM), item('g', g1T, g1O, d1), item('p', nsecT), item('g', g2T, g2O, d2), lease)
 }
 
 func (g *genHist) genCut(k int) string {
